@@ -996,6 +996,13 @@ func (st *Runtime) evalMultiplicativeExpression(node *MultiplicativeExprNode) re
 	// if the left value is not a float and the right is, we need to promote the left value to a float before the calculation
 	// this is necessary for expressions like 4*1.23
 	needFloatPromotion := !isFloat(kind) && isFloat(right.Kind())
+	if (isInt(kind) || isUint(kind) || isFloat(kind)) && right.IsValid() && canNumber(right.Kind()) {
+		// integer division and every modulo divide by the integer value of the right side
+		integral := node.Operator.typ == itemMod || (node.Operator.typ == itemDiv && !isFloat(kind) && !needFloatPromotion)
+		if integral && castInt64(right) == 0 {
+			node.Right.errorf("division by zero")
+		}
+	}
 	switch node.Operator.typ {
 	case itemMul:
 		if isInt(kind) {
